@@ -10,7 +10,7 @@ raises OverflowError or ValueError and nothing else; the other conversions (floa
 from_wbem_uri(), the SAX parser) are total functions into Option in the codec record, so any behaviour
 of theirs is covered.
 -/
-import Proofs.Lemmas.EnvSafe2
+import Proofs.Lemmas.EnvShape
 
 namespace C02
 open Pywbem.Model Pywbem.Model.Resp Pywbem.Model.Envelope Pywbem.Proto Pywbem.Model.XmlText Proofs.C02
@@ -166,5 +166,110 @@ theorem C02_client_partial (C : EnvCodec) (hC : CodecOk C.toDecCodec) (fuel : Na
   · simp only [hh]
     exact ⟨fun e he => by cases he; exact Or.inl (Or.inr (Or.inr (Or.inr (Or.inl rfl)))),
            fun e he hpe => by cases he; simp⟩
+
+/-- the operation table is used consistently: InvokeMethod is the extrinsic call, ExportIndication the
+    export call, and the InstanceName argument is an instance path -/
+def OpWellFormed (op : OpSpec) : Prop :=
+  (op.kind = .method → op.post = .invoke) ∧ (op.kind = .export → op.post = .void) ∧ isInstPath op.reqPath = true
+
+/-- **op_result_shape**: for EVERY tree, whenever an operation returns, the returned value has the
+    documented result type of that operation: the right Python class for every list element,
+    instances with an instance path where the docstring promises one (EnumerateInstances,
+    GetInstance, Associators/References, Open…/PullInstancesWithPath), class paths for class-level
+    AssociatorNames/ReferenceNames, `eos` true exactly when the enumeration context is None, the query
+    result class present exactly when requested. -/
+theorem C02_op_result_shape (C : EnvCodec) (fuel : Nat) (op : OpSpec) (hwf : OpWellFormed op) (t : Xml) (r : Res)
+    (h : handleResponse C fuel op t = .ok r) : HasDocumentedShape op.post r := by
+  obtain ⟨hm, he, hreq⟩ := hwf
+  unfold handleResponse at h
+  obtain ⟨m, _, h⟩ := bind_eq_ok h
+  split at h
+  · obtain ⟨kids, _, h⟩ := bind_eq_ok h
+    obtain ⟨k2, hk2, h⟩ := bind_eq_ok h
+    exact postProcess_shape C op hreq _ r h
+  · rename_i hk
+    obtain ⟨kids, _, h⟩ := bind_eq_ok h
+    rw [hm hk]
+    exact methodResult_shape C kids r h
+  · rename_i hk
+    obtain ⟨kids, _, h⟩ := bind_eq_ok h
+    rw [he hk]
+    split at h
+    · obtain ⟨_, _, h⟩ := bind_eq_ok h; cases h
+    · cases h; rfl
+    · cases h
+
+/-- non-vacuity of the shape theorem: an empty EnumerateInstances response returns the empty list -/
+example : handleResponse ⟨toyCodec, fun _ => false⟩ 0
+    { kind := .imethod, meth := "EnumerateInstances".toList, post := .instList }
+    (.elem "CIM".toList [("CIMVERSION".toList, "2.0".toList), ("DTDVERSION".toList, "2.0".toList)]
+      [.elem "MESSAGE".toList [("ID".toList, ['1']), ("PROTOCOLVERSION".toList, "1.0".toList)]
+        [.elem "SIMPLERSP".toList [] [.elem "IMETHODRESPONSE".toList [("NAME".toList, "EnumerateInstances".toList)] []]]])
+    = .ok (.instances []) := rfl
+
+/-- and a CIM error: `<ERROR CODE="6"/>` raises CIMError(6); `CODE="x"` raises CIMXMLParseError -/
+example : handleResponse ⟨toyCodec, fun _ => false⟩ 0
+    { kind := .imethod, meth := "GetInstance".toList, post := .oneInst }
+    (.elem "CIM".toList [("CIMVERSION".toList, "2.0".toList), ("DTDVERSION".toList, "2.0".toList)]
+      [.elem "MESSAGE".toList [("ID".toList, ['1']), ("PROTOCOLVERSION".toList, "1.0".toList)]
+        [.elem "SIMPLERSP".toList [] [.elem "IMETHODRESPONSE".toList [("NAME".toList, "GetInstance".toList)]
+          [.elem "ERROR".toList [("CODE".toList, ['6'])] []]]]])
+    = .error (.cimError 6) := rfl
+
+example : handleResponse ⟨toyCodec, fun _ => false⟩ 0
+    { kind := .imethod, meth := "GetInstance".toList, post := .oneInst }
+    (.elem "CIM".toList [("CIMVERSION".toList, "2.0".toList), ("DTDVERSION".toList, "2.0".toList)]
+      [.elem "MESSAGE".toList [("ID".toList, ['1']), ("PROTOCOLVERSION".toList, "1.0".toList)]
+        [.elem "SIMPLERSP".toList [] [.elem "IMETHODRESPONSE".toList [("NAME".toList, "GetInstance".toList)]
+          [.elem "ERROR".toList [("CODE".toList, ['x'])] []]]]])
+    = .error .cimXmlParseError := rfl
+
+/-! ### constant tables
+
+`Model/RespDec.lean` and `Model/Envelope.lean` take the `check_node` argument lists, the acceptable-child
+lists and the CIM type sets from `Generated/RspTables.lean`, which tools/extractors/rsp.py regenerates
+from the source text on every run.  The helper functions shared with the C01 decoder model and the path
+block carry their lists inline; they are pinned here. -/
+
+abbrev specOf (fn : String) : Option (String × String × List String × List String × Option (List String) × Bool) := Pywbem.Generated.Rsp.checkNodes.find? (fun r => r.1 == fn)
+
+/-- the inline `check_node` specifications of the shared helper functions and of the path decoders are
+    the ones in the source (a changed attribute / child list in pywbem/_tupleparse.py breaks this pin) -/
+theorem C02_tables_pinned :
+    ((Pywbem.Generated.Rsp.extractionFailed == false) &&
+     (specOf "parse_namespace" == some ("parse_namespace", "NAMESPACE", ["NAME"], [], some [], false)) &&
+     (specOf "parse_localnamespacepath" == some ("parse_localnamespacepath", "LOCALNAMESPACEPATH", [], [], some ["NAMESPACE"], false)) &&
+     (specOf "parse_host" == some ("parse_host", "HOST", [], [], some [], true)) &&
+     (specOf "parse_namespacepath" == some ("parse_namespacepath", "NAMESPACEPATH", [], [], none, false)) &&
+     (specOf "parse_classname" == some ("parse_classname", "CLASSNAME", ["NAME"], [], some [], false)) &&
+     (specOf "parse_value" == some ("parse_value", "VALUE", [], [], some [], true)) &&
+     (specOf "parse_value_null" == some ("parse_value_null", "VALUE.NULL", [], [], some [], false)) &&
+     (specOf "parse_value_reference" == some ("parse_value_reference", "VALUE.REFERENCE", [], [], none, false)) &&
+     (specOf "parse_keybinding" == some ("parse_keybinding", "KEYBINDING", ["NAME"], [], none, false)) &&
+     (specOf "parse_instancename" == some ("parse_instancename", "INSTANCENAME", ["CLASSNAME"], [], none, false)) &&
+     (specOf "parse_instancepath" == some ("parse_instancepath", "INSTANCEPATH", [], [], none, false)) &&
+     (specOf "parse_localinstancepath" == some ("parse_localinstancepath", "LOCALINSTANCEPATH", [], [], none, false)) &&
+     (specOf "parse_classpath" == some ("parse_classpath", "CLASSPATH", [], [], none, false)) &&
+     (specOf "parse_localclasspath" == some ("parse_localclasspath", "LOCALCLASSPATH", [], [], none, false)) &&
+     (kidsG "parse_value_reference" "one_child" == ["CLASSPATH", "LOCALCLASSPATH", "CLASSNAME", "INSTANCEPATH", "LOCALINSTANCEPATH", "INSTANCENAME"]) &&
+     (kidsG "parse_keybinding" "one_child" == ["KEYVALUE", "VALUE.REFERENCE"]) &&
+     (kidsG "parse_value_array" "list_of_various" == ["VALUE", "VALUE.NULL"]) &&
+     (kidsG "parse_value_refarray" "list_of_various" == ["VALUE.REFERENCE", "VALUE.NULL"]) &&
+     (kidsG "parse_error" "list_of_various" == ["INSTANCE"])) = true := by
+  decide
+
+/-- the operation signatures the harness and the driver use are the ones in the source: exactly the
+    Open…/Pull… operations have output parameters; exactly the modify/create-class/delete/set/close
+    operations are void -/
+theorem C02_op_flags_pinned :
+    (Pywbem.Generated.Rsp.opFlags.filter (fun r => r.2.2.2.2)).map (·.1) =
+      ["OpenEnumerateInstances", "OpenEnumerateInstancePaths", "OpenAssociatorInstances", "OpenAssociatorInstancePaths",
+       "OpenReferenceInstances", "OpenReferenceInstancePaths", "OpenQueryInstances", "PullInstancesWithPath",
+       "PullInstancePaths", "PullInstances"] ∧
+    (Pywbem.Generated.Rsp.opFlags.filter (fun r => !r.2.2.2.1)).map (·.1) =
+      ["ModifyInstance", "DeleteInstance", "CloseEnumeration", "ModifyClass", "CreateClass", "DeleteClass",
+       "SetQualifier", "DeleteQualifier"] ∧
+    Pywbem.Generated.Rsp.opFlags.length = 34 := by
+  decide
 
 end C02
